@@ -57,6 +57,7 @@ def mutants_at(text, pos, ref_base):
 
 class Prop(BaseProp):
     ID = "C06"
+    ANCHORS = ['cminx.parser:ParserErrorListener.syntaxError', 'cminx.parser:LexerErrorListener.syntaxError', 'cminx:document_single_file', 'cminx:document']
     LEVEL = "fault_enumeration"
     RULE = ("base modules (generated + a fixed snippet holding every argument form, escapes, a multi-line string, a "
             "doccomment, comments, a class, a test) mutated by 12 fault kinds at EVERY byte position outside comments "
